@@ -169,7 +169,7 @@ def verdicts(out):
     return res
 
 
-def validate_traces(traces, module="MxTrace", cfg="MxTrace.cfg", timeout=3600, keep=None):
+def validate_traces(traces, module="MxTrace", cfg="MxTrace.cfg", timeout=900, keep=None):
     """Write a batch, run the trace spec, return (verdicts dict, tlc result)."""
     fd, path = tempfile.mkstemp(prefix="mxv_traces_", suffix=".json")
     try:
